@@ -4,7 +4,7 @@ correspondence K-C16 (table dumps, decomposition-class op sequences, trainer-lev
 configuration sweeps)."""
 import os, re
 from vlib import core
-from checks import c16_mclin
+from checks import c16_mclin, c16_epoch
 
 TRUST = ("Lean 4.33 kernel; axioms at most propext/Classical.choice/Quot.sound (audited per run by #audit_module); ")
 MANIFEST = dict(
@@ -24,33 +24,41 @@ MANIFEST = dict(
         "(4) QpMcSimplexDecomp (CS, ATM, ADM, MMR; Model/McSimplex.lean: updateSMO in its three cases incl. solveQuadratic2DTriangle, updateVarsum with its re-computation/snapping rule, deactivateVariable with automatic "
         "deactivateExample, shrink cases 1/2, unshrink, selectWorkingSet/maxGainBox/maxGainSimplex, checkKKT, solve loop): simplex_run_invariants = tables + gradient invariants + mc_simplex_inv "
         "(alpha>=0, 0<=varsum<=C, Sum_p alpha_ip <= C + 1e-14: the constraint up to the slack of the code's own snapping, which the real code does use) for every state reached by QpSolver::solve and by every single operation "
-        "(simplex_ops_preserve; the off-by-one branch of shrink is proved unreachable), simplex_stop_is_kkt, simplex_run_renumbers (the simplex loop too only renumbers Q and lin); "
+        "(simplex_ops_preserve; the off-by-one branch of shrink is proved unreachable), simplex_stop_is_kkt, simplex_run_renumbers (the simplex loop too only renumbers Q and lin), "
+        "simplex_kkt_eps_near_optimal / simplex_generated_near_optimal (stop => KKT(eps) => objective gap for the SIMPLEX-constrained dual: D(b)-D(alpha) <= n*(eps*(2C+1e-14) + 1e-14*C*G) for every b>=0 with row sums <= C, "
+        "G a bound of the final gradient; the multiplier of an example's sum constraint is the smallest gradient of its positive variables; the 1e-14 term is the price of the code's varsum snapping; invariant now two-sided: |varsum - sum alpha| <= 1e-14*max(1,C)); "
         "(5) bias loop as far as it is logic (Model/McBias.lean): bias_loop_consistent — after ANY sequence of inner solves and performBiasUpdate steps all invariants hold and the linear part, read through the renumbered tables, is "
-        "linear(i,p) - nu-row . (accumulated bias) (LinInv through every operation); bias_loop_consistent_simplex: the same for BiasSolverSimplex over runs of the simplex solve loop; "
+        "linear(i,p) - nu-row . (accumulated bias) (LinInv through every operation); bias_loop_consistent_simplex: the same for BiasSolverSimplex over runs of the simplex solve loop; the Rprop rule itself as a state machine "
+        "(biasSolve = BiasSolver::solve with both loops): rprop_bias_solver_consistent (every run ends with all invariants and linear part = linear - nu*reported bias), rprop_step_sizes_positive, rprop_bias_sum_zero (sum-to-zero projection keeps the bias sum); "
         "(6) decision logic generated from CSvmTrainer::train / LinearCSvmTrainer::train: two_class_dispatch, ova_is_binary_per_class, every other formulation uses one of the four table families; "
         "(7) dedicated linear solvers: QpBoxLinear coordinate step (linear_w_inv, linear_box_inv along EVERY schedule, linear_step_gain_nonneg_partial) and QpMcLinear{WW,LLW,ATS,MMR,Reinforced} per-example step "
         "(Model/McLinearMc.lean: calcGradient, solveSub with its inner SMO loop, updateWeightVectors): mc_linear_invariants = w is the formulation's linear map of alpha, 0<=alpha<=C, returned gain >= 0, along EVERY schedule; "
+        "QpMcLinear{CS,ATM,ADM}: mc_linear_sum_invariants_partial (w consistency, alpha>=0, extra column = row sum <= C, alpha(i,y_i)=0 for CS/ADM, along every schedule; hypothesis SweepGuard excludes only the 1e100-sentinel case of the selection); "
+        "the epoch loop of QpMcLinear::solve (Model/McLinearEpoch.lean: ACF schedule arithmetic from the observed draws, preference update, canstop rule): epoch_uniform_sweep_visits_all (all preferences 1 => the schedule is 0..ell-1, every example exactly once "
+        "after any shuffle), epoch_schedule_fits (pos <= ell for arbitrary preferences/draws: no write past the buffer; pos = ell when prefsum is the sum of positive preferences), epoch_linear_stop_weak (AccuracyReached => last epoch was a canstop full sweep with every "
+        "violation < eps at visit time — nothing about the end of the epoch), pref_bounds, epEpoch_prefsum; "
         "(8) configuration invariance in exact arithmetic: mc_kkt_eps_near_optimal / two_stopped_configurations_close, stopped_state_near_optimal, mc_objective_recomputed, generated_Q_psd, perm_examples_equivariant. "
         "Tie to the C++ on every run (both tiers): entry-wise table dumps c=2..8; adversarial op sequences INCLUDING whole solve runs on the real QpMcBoxDecomp AND the real QpMcSimplexDecomp (protected members via subclasses, "
         "QpSolver<Probe>::solve, BiasSolver[Simplex]::performBiasUpdate via an access override; synthetic PSD integer/dyadic kernel matrices) compared line by line with the Float instance of the models bit for bit (complete state incl. varsum, "
         "iterations, stop type, reported accuracy) and, whenever FE_INEXACT stayed clear, with the Rat instance exactly, with independent oracles (tables, box/simplex, recomputed gradient, varsum drift, stopping rule); per-example steps of all "
-        "eight real QpMcLinear classes along arbitrary schedules against the model bit for bit with oracles (w consistency, feasibility, gain = change of the dual objective); one-epoch sweeps of the real QpBoxLinear; trainer level (oracle only): "
+        "eight real QpMcLinear classes along arbitrary schedules against the model bit for bit with oracles (w consistency, feasibility; gain vs change of the dual objective is an informational counter only); whole runs of QpMcLinear::solve "
+        "(a replica of its statements calling the real virtuals records the random draws and shuffled schedules, is validated against the real solve() bit for bit on every run, and is compared with the model incl. Float.exp = std::exp); "
+        "whole runs of the real BiasSolver::solve (Rprop rule + inner solves) against the state-machine model bit for bit; states next to the varsum snapping thresholds (dyadic linear terms, xadddeltas); one-epoch sweeps of the real QpBoxLinear; trainer level (oracle only): "
         "all 9 formulations x offset x shrinking x cache sizes x example permutations x batch sizes x 3 kernels on integer data with 2-5 classes, decision values compared across configurations within the derived bound, box/simplex constraints, "
         "recomputed gradient/KKT/objective, alpha->decision-function map, two-class = binary trainer bit for bit, OVA = per-class binary bit for bit, linear kernel vs dedicated linear solver, and re-use of one model object "
         "(k-class then two-class training and vice versa must equal a fresh model); ASan/UBSan."),
-  note=TRUST + "PARTIAL. Modelled by hand, not translated: McSmo/McSolve/McSimplex/McBias/McLinear/McLinearMc (tied bit for bit on every run). NOT proved: (a) the objective-gap bound for the SIMPLEX-constrained dual "
-       "(simplex_stop_is_kkt gives KKT(eps) in terms of the tracked varsum; the bound would carry an extra term 1e-14*|gradient| from the snapping), and NO never-stuck theorem for the simplex loop: it is false on the current code — "
-       "shrink case 2 deactivates a KKT-violating variable whose example's varsum was snapped to 0 (finding F-C16-4, root cause; the model reproduces the resulting livelock bit for bit); "
-       "(b) BiasSolver::solve's Rprop rule, its two data-dependent loops and their termination (bias_loop_consistent quantifies over every sequence of steps instead; the whole loop is exercised at trainer level only — F-C16-2, F-C16-4 live there); "
-       "(c) QpMcLinear{CS,ATM,ADM} theorems (model + bit-exact tie + oracles only; F-C16-L1 lives there), the ACF/shrinking epoch schedule and the epoch-level stopping rule of QpMcLinear::solve/QpBoxLinear::solve "
-       "(theorems quantify over every schedule; uniform_sweep_visits_all, linear_stop_weak, primal_dual_gap of the design are not proved; 'same primal objective as the kernel solver' is a trainer-level oracle); "
+  note=TRUST + "PARTIAL. Modelled by hand, not translated: McSmo/McSolve/McSimplex/McBias/McLinear/McLinearMc/McLinearEpoch (tied bit for bit on every run). NOT proved / limits: (a) the simplex objective-gap bound is stated in the numbering of the "
+       "final state (a renumbering of the original dual by simplex_run_renumbers) and carries the term 1e-14*C*G; NO never-stuck theorem for the simplex loop (before the fix c0682ba5 it was false: F-C16-4c; not re-attempted on the repaired code); "
+       "(b) BiasSolverSimplex::solve's Rprop variant is not modelled as a state machine (only BiasSolver::solve is; performBiasUpdate of both is); termination of the Rprop loops is not proved (fuel; the driver reports fuel-exhausted) and NOTHING constrains "
+       "the bias the rule chooses — F-C16-2 lives there; the exact (Rat) instance is not run through whole Rprop runs (Float tie only); "
+       "(c) mc_linear_sum_invariants_partial needs SweepGuard (gradients below the 1e100 sentinel); the shrinking variant of QpMcLinear::solve and the UNIFORM strategy are not modelled (LinearCSvmTrainer uses ACF without shrinking); 'same primal objective as the "
+       "kernel solver' stays a trainer-level oracle; the returned gain of QpMcLinear{CS,ADM,ATM}::solveSub is not the objective change (NOTE in findings_proposed/C16.md, not a finding: no clause of C16 is affected; 1260 trainer-level comparisons found nothing); "
        "(d) no theorem about WHICH working set is selected beyond validity (the second-order rule incl. the shifted arguments of maximumGainQuadratic2D is tied bit for bit) and none about convergence (that accuracy IS reached); "
        "(e) the time limit of QpSolver::solve is not modelled. linear_step_gain_nonneg is partial (|x_i|^2+reg>0). The driver re-tabulates the state vectors between model operations and between passes of the solve loop "
        "(identity on the valid index ranges; the loop it runs is the model's solveLoopWith/solveLoopXWith, proved equal to solveLoop/solveLoopX for the identity re-tabulation). Configuration invariance is a theorem about exact arithmetic over a kernel matrix given as a function (C09 owns the cache); PSD of Q is proved for Gram "
        "matrices of explicit features, a hypothesis otherwise; floating-point effects are covered by the correspondence only. For the binary machine (and each one-versus-all machine) with offset a constant shift of the decision values "
-       "between configurations is tolerated (C07 owns bias_in_kkt_interval). Findings: F-C16-L1 (QpMcLinear{CS,ADM,ATM} two-variable step: gain formula / ATM gradient update; validated patch proposed), F-C16-4 (QpMcSimplexDecomp::shrink case 2 vs the varsum snapping: the solve loop "
-       "livelocks, with offset BiasSolverSimplex then stops at a non-KKT point; root cause found this round, validated patches F4c + F4b proposed), F-C16-2 (multi-class offset solver is trajectory dependent; no small patch) "
-       "— see findings_proposed/C16.md; listed in known_findings.json.",
+       "between configurations is tolerated (C07 owns bias_in_kkt_interval). Findings: F-C16-2 (multi-class offset solver: one sweep of block coordinate descent, result depends on example order etc.; re-examined after F4b/F4c; method-of-multipliers patch proposed for the maintainers' decision); "
+       "F-C16-4 residual (slow ATM/ADM convergence beyond the harness iteration limit; the stalls F-C16-4b/4c are fixed in /repo) — see findings_proposed/C16.md; listed in known_findings.json.",
   technique="Lean 4 invariant proofs by induction over operation histories and over whole runs of the modelled solver loops (hand-written models) + source-regenerated tables and decision logic (T2) + differential correspondence with the C++ "
             "(exact / bit / toleranced modes, ASan/UBSan) + independent trainer-level property oracles",
   design="§6 C16, §14 C16")
@@ -74,7 +82,7 @@ def hname(base):
 
 
 def build(ctx):
-    return ctx.harness(hname("c16"), ["c16l.cpp", "c16.cpp", "c16s.cpp", "c16x.cpp"], repo_sources=SRC)
+    return ctx.harness(hname("c16"), ["c16l.cpp", "c16e.cpp", "c16.cpp", "c16s.cpp", "c16x.cpp"], repo_sources=SRC)
 
 
 def classify(ops, res):
@@ -185,6 +193,15 @@ def gen_box_case(r, maxlen, ctx=None):
             ops.append(gen_solve_op(r, ctx))
     if r.chance(1, 3):
         ops.append(gen_solve_op(r, ctx, full=True))          # a whole run of QpSolver::solve to its stopping rule
+    if r.chance(1, 5):
+        # a whole run of BiasSolver::solve (inner solves + the Rprop rule on the bias), with and without the sum-to-zero projection;
+        # small iteration limits exercise the "inner solve did not reach the accuracy" exit
+        num, sh = r.choice([(1, 6), (1, 10), (1, 3), (1, 0)])
+        mi = r.choice([3000, 3000, 3000, 40, 7, 0])
+        stz = r.below(2)
+        ops.append(f"biassolve {num} {sh} {mi} {stz}")
+        if ctx is not None:
+            ctx.hist("biassolve_eps", f"{num}/2^{sh}"); ctx.hist("biassolve_maxiter", mi); ctx.hist("biassolve_sumToZero", stz)
     if ctx is not None:
         ctx.hist("box_family", fam); ctx.hist("box_classes", c); ctx.hist("box_examples", n)
         ctx.hist("box_C", f"{cnum}/2^{cshift}"); ctx.hist("box_kernel_scale", f"2^-{kshift}")
@@ -213,12 +230,58 @@ def gen_sx_case(r, maxlen, ctx=None):
         t = o.split()
         if t[0] == "deactex": t = ["deactvar", t[1]]
         if t[0] == "select1": t = [r.choice(["select", "kkt"])]
+        if t[0] == "biassolve": continue                  # (BiasSolverSimplex::solve is not modelled)
         out.append("x" + " ".join(t))
     if ctx is not None:
         h = out[0].split()
         ctx.hist("sx_family", h[1]); ctx.hist("sx_classes", h[2]); ctx.hist("sx_examples", h[3])
         ctx.hist("sx_C", f"{h[4]}/2^{h[5]}"); ctx.hist("sx_shrinking", h[6]); ctx.hist("sx_kernel_scale", f"2^-{h[7]}")
     return out
+
+
+def gen_sx_near_case(r, maxlen, ctx=None):
+    """states next to the snapping thresholds of QpMcSimplexDecomp::updateVarsum (1e-12 / 1e-14, relative to C resp. absolute):
+    identity kernel, one variable driven by a dyadic linear term to alpha = C*(1 - 2^-t) (C - varsum in [1e-14 C, 1e-10 C)
+    and around) or to alpha = 2^-t around 1e-14; then an ordinary random history.  Ordinary dyadic data never get there."""
+    fam = r.choice(["WWCS", "ATMATS", "ADMLLW", "MMR"])
+    c = r.choice([2, 3, 4, 5]) if fam == "WWCS" else r.choice([2, 4])
+    P = FAMILY_P[fam](c)
+    md_num, md_sh = (1, 1) if (fam == "WWCS" or c == 2) else (3, 2)          # diagonal entry of M: 1/2 resp. 1 - 1/c
+    n = r.choice([1, 2, 3])
+    labels = [r.below(c) for _ in range(n)]; labels[n - 1] = c - 1
+    if fam != "WWCS" and fam != "MMR": pass
+    cnum, cshift = r.choice([(1, 0), (2, 0), (1, 1), (4, 0), (3, 0), (5, 1)])
+    lin = [1] * (n * P)
+    K = [[1 if i == j else 0 for j in range(n)] for i in range(n)]
+    ops = ["sbox %s %d %d %d %d %d %d %s" % (fam, c, n, cnum, cshift, 0 if r.chance(1, 4) else 1, 0,
+           " ".join(map(str, labels + lin + [K[i][j] for i in range(n) for j in range(n)])))]
+    # the M entry of variable (example 0, p) against itself is md only if ... use p = 0 of example 0
+    kind = r.choice(["upper", "upper", "lower"])
+    if kind == "upper":
+        t = r.range(33, 47)
+        S = md_sh + cshift + t
+        target = md_num * cnum * ((1 << t) - 1)                              # = Mdiag*C*(1-2^-t) * 2^S
+    else:
+        t = r.range(43, 51)
+        S = md_sh + t
+        target = md_num                                                      # = Mdiag*2^-t * 2^S
+    d = [0] * (n * P); d[0] = target - (1 << S)                               # the linear term starts at 1
+    ops.append("xadddeltas %d %s" % (S, " ".join(map(str, d))))
+    ops.append("xsmo 0 0")
+    tail = gen_sx_case(r, maxlen, None)[1:]
+    # keep only ops whose arguments fit this problem size
+    nv = n * P
+    for o in tail[: r.range(2, 12)]:
+        tk = o.split()
+        if tk[0] in ("xsmo",) and (int(tk[1]) >= nv or int(tk[2]) >= nv): continue
+        if tk[0] in ("xdeactvar",) and int(tk[1]) >= nv: continue
+        if tk[0] in ("xkillex", "xlabel") and int(tk[1]) >= n: continue
+        if tk[0] in ("xadddelta", "xbiasupd"): continue
+        ops.append(o)
+    ops.append(f"xsolve 1 {r.choice([10, 20])} {r.choice([3, 40, 3000])}")
+    if ctx is not None:
+        ctx.hist("sx_near_threshold", f"{kind}:2^-{t}")
+    return ops
 
 
 def split_line(l):
@@ -237,6 +300,7 @@ class BoxResult:
         self.ok, self.crash, self.oracle, self.diff_at, self.exact_diff = True, False, [], None, None
         self.impl, self.model, self.stderr = [], [], ""
         self.exact_lines = 0
+        self.info = {}
         self.rat_ok = 0
         self.lines = 0
 
@@ -259,6 +323,8 @@ def run_box(ctx, hcmd, dcmd, ops, timeout=300):
             r.diff_at, r.ok = k, False
         r.lines += 1
         if sb.get("rat") == "ok": r.rat_ok += 1
+        for k_ in ("gainmis", "gainneg", "objdec"):          # informational side channels of harness/c16l.cpp
+            if sa.get(k_) == "1": r.info[k_] = r.info.get(k_, 0) + 1
         if sa.get("x") == "1":
             r.exact_lines += 1
             # all floating-point operations so far were exact: the Rat model must agree exactly
@@ -278,9 +344,6 @@ def classify_box(ops, res):
             return (f"F-C16-4:simplex-shrink-deactivates-violator:{fam}",
                     "QpMcSimplexDecomp::shrink deactivated a variable that violates the KKT conditions (varsum snapped to 0, alpha tiny but positive, "
                     f"negative gradient): the solve loop cannot make progress from there; ops {ops}")
-        if tags == ["ml-gain-mismatch"] and fam in ("CS", "ADM", "ATM") and res.diff_at is None and not res.crash:
-            return (f"F-C16-L1:mclinear-two-variable-gain:{fam}",
-                    f"QpMcLinear{fam}::solveSub returns a gain that is not the change of the dual objective (two-variable step); ops {ops}")
         if tags == ["label-after-shrink"]:
             return "F-C16-1:label-after-shrink", ("QpMcBoxDecomp::label(i) returns the label of the example currently at position i, "
                                                    f"not of dataset example i, after deactivateExample; ops {ops}")
@@ -305,8 +368,10 @@ def correspond_box(ctx, name, cases, hcmd, dcmd, max_report=4):
     ctx.count("box_lines_exact_mode", big.exact_lines)
     ctx.count("box_lines_bit_mode", big.lines - big.exact_lines)
     ctx.count("lines_where_float_model_equals_rat_model", big.rat_ok)
+    for k_, v_ in big.info.items():
+        ctx.count(f"{name}_info_{k_}_lines", v_)      # e.g. gain returned by solveSub != change of the dual objective (a note, not a finding)
     for l in big.impl:
-        m = re.match(r"it=(\d+) stop=(\d+) ", l)
+        m = re.match(r"(?:bias=\S+ )?it=(\d+) stop=(\d+) ", l)
         if m:      # a whole run of QpSolver::solve: how it ended and how long it ran
             it = int(m.group(1))
             ctx.hist(name + "_solve_stop", {"1": "accuracy", "4": "maxIterations"}.get(m.group(2), m.group(2)))
@@ -656,6 +721,16 @@ def trainer_sweeps(ctx, exe, nds, disp=None, corpus=()):
         key, what, ops = check_train_group(ctx, exe, ds, F, bias, C, eps, kern, cfgs, disp)
         ctx.count("corpus_train_cases")
         if key: report_train(ctx, exe, seen, key, what, ops)
+    # targeted: strong regularisation, sum-constrained formulations, linear kernel: examples sit on the face sum alpha = C and are released
+    # later; kernel solver vs dedicated linear solver must still agree (seeded change C16-mclinear-cs-kkt-on-simplex-face)
+    for _ in range(8 if ctx.quick else 40):
+        ds = gen_dataset(r, False)
+        if ds["k"] < 3: continue
+        C = r.choice(["0.05", "0.125", "0.02"])
+        for F in ("CS", "ATM", "ADM"):
+            key, what, ops = check_linear_vs_kernel(ctx, exe, ds, F, C, "1e-5")
+            ctx.count("linear_vs_kernel_small_C_runs")
+            if key: report_train(ctx, exe, seen, key, what, ops)
     for _ in range(nds):
         if len(seen) >= 3:
             ctx.log("trainer sweeps: three distinct violations already reported, stopping the sweep early")
@@ -663,7 +738,7 @@ def trainer_sweeps(ctx, exe, nds, disp=None, corpus=()):
         ds = gen_dataset(r, ctx.quick)
         n, k = ds["n"], ds["k"]
         kern = r.choice(["lin", "lin", "poly", "rbf"])
-        C = r.choice(["0.5", "1", "2", "4"])
+        C = r.choice(["0.5", "1", "2", "4", "0.125", "0.05"])      # incl. strong regularisation (examples sit at sum alpha = C)
         eps = r.choice(["1e-3", "1e-3", "1e-5"])
         forms = FORMS if not ctx.quick else [r.choice(FORMS) for _ in range(4)]
         ctx.hist("train_classes", k); ctx.hist("train_examples", n); ctx.hist("train_kernel", kern); ctx.hist("train_eps", eps)
@@ -699,7 +774,7 @@ def run(ctx):
                         "trainer-level tolerances follow from the KKT accuracy bound for a concave dual with PSD Q = M (x) K (kkt_eps_near_optimal is C07's theorem; "
                         "used here as the formula for the tolerance, not re-proved)"]
     translate(ctx)
-    ctx.prove(["SharkVerif.Props.C16"])
+    ctx.prove(["SharkVerif.Props.C16", "SharkVerif.Lemmas.McLinearMcSum", "SharkVerif.Lemmas.McLinearEpoch"])
     if not ctx.quick:
         ctx.leanchecker(["SharkVerif.Props.C16"])
     exe = build(ctx)
@@ -732,6 +807,7 @@ def run(ctx):
         ctx.cov["evaluations"] += len(xcorp)
         correspond_box(ctx, "K-C16-simplex-corpus", xcorp, [exe], [drv])
     xcases = [gen_sx_case(rx, maxlen, ctx) for _ in range(500 if ctx.quick else 2500)]
+    xcases += [gen_sx_near_case(rx, maxlen, ctx) for _ in range(60 if ctx.quick else 400)]
     for c in xcases:
         for o in c: ctx.hist("sx_op_mix", o.split()[0])
     ctx.cov["evaluations"] += len(xcases)
@@ -741,16 +817,20 @@ def run(ctx):
     # dedicated multi-class linear solvers QpMcLinear{WW,LLW,ATS,MMR,Reinforced,CS,ATM,ADM}: the per-example step
     # (calcGradient / solveSub / updateWeightVectors of the real classes) along arbitrary schedules
     rl = ctx.rng.fork("c16-mclin")
-    BOXF, SXF = ["WW", "LLW", "ATS", "MMR", "RS"], ["CS", "ATM", "ADM"]
-    mcases = [c16_mclin.gen_mclin_case(rl, 6 if ctx.quick else 12, ctx, BOXF) for _ in range(450 if ctx.quick else 2500)]
-    # (separate batch: the gain oracle is known to fire there, F-C16-L1; every other failure still gets its own key)
-    scases = [c for c in corpus if c[0].startswith("mldata")]
-    scases += [c16_mclin.gen_mclin_case(rl, 6 if ctx.quick else 12, ctx, SXF) for _ in range(150 if ctx.quick else 1200)]
-    ctx.cov["evaluations"] += len(mcases) + len(scases)
-    ctx.cov["distinct_nontrivial"] += len({"\n".join(c) for c in mcases + scases})
+    mcases = [c for c in corpus if c[0].startswith("mldata")]
+    mcases += [c16_mclin.gen_mclin_case(rl, 6 if ctx.quick else 12, ctx) for _ in range(600 if ctx.quick else 3500)]
+    ctx.cov["evaluations"] += len(mcases)
+    ctx.cov["distinct_nontrivial"] += len({"\n".join(c) for c in mcases})
     ctx.sample({"mclinear_ops": mcases[len(mcases) // 2][:4]})
     correspond_box(ctx, "K-C16-mclinear", mcases, [exe], [drv], max_report=8)
-    correspond_box(ctx, "K-C16-mclinear-sum", scases, [exe], [drv], max_report=8)
+    # whole runs of QpMcLinear::solve (ACF schedule from the observed random draws, preference update, stopping rule):
+    # pass 1 records the draws / shuffled schedules of a replica that is validated against the real solve() bit for bit
+    re_ = ctx.rng.fork("c16-epoch")
+    ecases = [c16_epoch.gen_epoch_case(re_, ctx) for _ in range(150 if ctx.quick else 1200)]
+    ecases = c16_epoch.add_traces(exe, ecases, ctx)
+    ctx.cov["evaluations"] += len(ecases)
+    ctx.cov["distinct_nontrivial"] += len({"\n".join(c) for c in ecases})
+    correspond_box(ctx, "K-C16-mclinear-epoch", ecases, [exe], [drv], max_report=8)
     # dedicated linear solver, one-epoch sweeps along the observed schedule
     lcases = [gen_linear_case(r, 6 if ctx.quick else 25, ctx) for _ in range(300 if ctx.quick else 1500)]
     lcases = add_schedules(exe, lcases)
